@@ -376,3 +376,55 @@ fn fnv(s: &str) -> u64 {
 pub fn replay(_sub: &str, case: &Value) -> Result<(), String> {
     run_arena(&case_from(case)).map(|_| ())
 }
+
+/// Exact-size heap operands (no arena): under AddressSanitizer any access beyond the slices
+/// hits a red zone.
+pub fn run_exact(c: &Case) -> Result<bool, String> {
+    if !precondition_ok(c) {
+        return Ok(false);
+    }
+    let binary = c.op == Op::FmaBinary;
+    let d0 = fill(c.content, c.seed, c.len, false);
+    let s0: Vec<u8> = if binary {
+        fill(c.content, c.seed ^ 0x5151, c.len, false).iter().map(|&x| if c.content == 0 { x & 1 } else { (x != 0) as u8 }).collect()
+    } else {
+        fill(c.content, c.seed ^ 0x5151, c.len, false)
+    };
+    let mut d = d0.clone().into_boxed_slice();
+    let s = s0.clone().into_boxed_slice();
+    if !invoke(c, &mut d, &s) {
+        return Ok(false);
+    }
+    if d[..] != model(c, &d0, &s0)[..] {
+        return Err(format!("{} {:?} len={} scalar={}: wrong result (exact-size operands)", path_name(c.path), c.op, c.len, c.scalar));
+    }
+    Ok(true)
+}
+
+/// Fuzz entry: bytes -> structured kernel case -> functional oracle (arena + exact operands).
+pub fn fuzz_one(data: &[u8]) -> Result<(), String> {
+    use arbitrary::Unstructured;
+    let mut u = Unstructured::new(data);
+    let ps = paths();
+    let path = ps[u.int_in_range(0..=ps.len() - 1).map_err(|e| e.to_string())?];
+    let op = OPS[u.int_in_range(0..=3usize).unwrap_or(0)];
+    let len = match u.int_in_range(0..=3u8).unwrap_or(0) {
+        0 => u.int_in_range(0..=140usize).unwrap_or(0),
+        1 => u.int_in_range(0..=700usize).unwrap_or(0),
+        2 => 64 * u.int_in_range(0..=8usize).unwrap_or(0) + u.int_in_range(0..=2usize).unwrap_or(0),
+        _ => u.int_in_range(0..=4200usize).unwrap_or(0),
+    };
+    let c = Case {
+        path,
+        op,
+        len,
+        d_off: u.int_in_range(0..=63usize).unwrap_or(0),
+        s_off: u.int_in_range(0..=63usize).unwrap_or(0),
+        scalar: u.arbitrary().unwrap_or(2),
+        content: u.int_in_range(0..=8u8).unwrap_or(0),
+        seed: u.arbitrary().unwrap_or(0),
+    };
+    run_arena(&c).map_err(|m| format!("{m} | case {}", case_json(&c)))?;
+    run_exact(&c).map_err(|m| format!("{m} | case {}", case_json(&c)))?;
+    Ok(())
+}
